@@ -522,6 +522,19 @@ where
     pub fn stop(&self) {
         self.close();
 
+        // Actions that are still queued are reduced after close(), and their effects are handed
+        // to the pool by the reducer loop: wait for it to drain before the pool is taken away
+        // (both waits share one deadline)
+        let deadline = Instant::now() + Duration::from_secs(3);
+        let pool_running = self.pool.lock().unwrap().clone();
+        if let Some(pool) = pool_running {
+            if cfg!(dev) {
+                pool.join();
+            } else {
+                pool.join_timeout(Duration::from_secs(3));
+            }
+        }
+
         // Shutdown the thread pool with timeout
         // lock pool
         let pool_took = self.pool.lock().unwrap().take();
@@ -531,7 +544,7 @@ where
                 // wait forever
                 pool.shutdown_join();
             } else {
-                pool.shutdown_join_timeout(Duration::from_secs(3));
+                pool.shutdown_join_timeout(deadline.saturating_duration_since(Instant::now()));
             }
             #[cfg(dev)]
             eprintln!("store: shutdown pool");
